@@ -89,7 +89,6 @@ def mono_div(m, t):
 
 class Poly:
     __slots__ = ("t", "_h")
-    __array_priority__ = 1000
 
     def __init__(self, t=None):
         self.t = t if t is not None else {}
